@@ -47,7 +47,14 @@ fn unsupported(e: &Expression, out: &mut Vec<(String, Vec<String>, bool)>, dead_
         Expression::Positional(_) => out.push(("option:Positional".into(), vec!["xdev".into(), "positional".into(), "nope".into()], dead_or_nested)),
         Expression::Global(g) => {
             let n = crate::monitors::variant(g).to_lowercase();
-            out.push(("option:Global".into(), vec![n.clone(), format!("-{}", n), "global".into()], dead_or_nested))
+            // a depth limit is something the target cannot express at all (parse() refuses the words for that
+            // reason): a hand-built node must be refused, compiling it to a constant drops it silently.
+            // -depth / -threads nodes: refused, or compiled like -true (C13's sentence) - both accepted.
+            let kind = match g {
+                GlobalOption::MaxDepth(_) | GlobalOption::MinDepth(_) => "option:DepthLimit",
+                _ => "option:Global",
+            };
+            out.push((kind.into(), vec![n.clone(), format!("-{}", n), "global".into()], dead_or_nested))
         }
         Expression::Operator(op) => match op.as_ref() {
             Operator::Precedence(x) => unsupported(x, out, dead_or_nested),
